@@ -32,7 +32,7 @@ SPEC = {
         're-entrant decoding (a hand-written Selfer whose CodecDecodeSelf calls d.MustDecode / d.Decode for its children; extensions) is not in C14/Typed.v (no custom-codec frames): the depth counter surviving re-entry is checked by the harness oracle only (paths selfer-reentry, selfer-reentry-e, ext-iface, ext-self)', 'typed path: C14/Typed.v is a model of decodeValue over destination type trees (depthIncr in arrayStart/mapStart, none in kPtr, kInterface -> naked); it is not tied by Coq cases, only by the harness oracle on T{A []T; M map[string]T; P *T} and [][]...[]int',
     ],
     'trusted_extra': ['modelled, not verified: decode.go decodeValue/kSlice/kMap/kStruct/kPtr/kInterface recursion structure (C14/Typed.v); the four wire models; stack bytes per frame, goroutine stack growth and the fatal-error path are runtime'],
-    'harness_timeout': {'quick': 400, 'thorough': 1800},
+    'harness_timeout': {'quick': 1500, 'thorough': 5400},
 }
 
 
